@@ -150,7 +150,8 @@ class MBTilesCache(TileCacheBase):
         if tile.source:
             return True
 
-        return self.load_tile(tile, dimensions=dimensions)
+        # is_cached loads the tile: load its metadata as well
+        return self.load_tile(tile, with_metadata=True, dimensions=dimensions)
 
     def store_tile(self, tile, dimensions=None):
         if tile.stored:
@@ -214,6 +215,8 @@ class MBTilesCache(TileCacheBase):
 
         content = cur.fetchone()
         if content:
+            if with_metadata:
+                tile.size = len(content[0])
             tile.source = ImageSource(BytesIO(content[0]))
             if self.supports_timestamp:
                 tile.timestamp = sqlite_datetime_to_timestamp(content[1])
